@@ -123,6 +123,24 @@ fn set_get_reopen_busy(t: SystemTime, script: usize) -> Result<SystemTime, Strin
     .and_then(|o| o.ok_or_else(|| "GETTER-NONE: creation_time() returned None after flushes, a code-page switch, save + reopen @ -".to_string()))
 }
 
+/// The time stored behind a comments string of `len` bytes: every position of
+/// the eight time bytes relative to the container's buffers and sectors.
+fn set_get_reopen_after_comment(t: SystemTime, len: usize) -> Result<SystemTime, String> {
+    catch(|| {
+        let (m, _) = Medium::empty();
+        let mut p = msi::Package::create(msi::PackageType::Installer, m).expect("create");
+        p.summary_info_mut().set_comments("c".repeat(len));
+        p.summary_info_mut().set_creation_time(t);
+        let m = p.into_inner().expect("into_inner");
+        match msi::Package::open(m) {
+            Ok(p) => Ok(p.summary_info().creation_time()),
+            Err(e) => Err(e.to_string()),
+        }
+    })
+    .and_then(|r| r.map_err(|e| format!("REOPEN-FAILS: {} @ -", e)))
+    .and_then(|o| o.ok_or_else(|| "GETTER-NONE: creation_time() returned None after save + reopen behind a long comment @ -".to_string()))
+}
+
 /// Checks one point; returns (class, violation).
 fn check_point(ns: i128, get: &mut dyn FnMut(SystemTime) -> Result<SystemTime, String>, via: &str) -> (u8, Option<(String, String)>) {
     let t = match from_ns(ns) {
@@ -352,6 +370,23 @@ pub fn run(tier: Tier) -> i32 {
     }
     total += busy.len() as u64;
     rep.set("busy_session_points", busy.len());
+    // one fixed time behind a comments string of every length 0..=8400 (and
+    // around 16 Ki): the time's bytes take every offset in the stream
+    let fixed: i128 = 1_600_000_000_i128 * 1_000_000_000 + 123_456_700;
+    let lens: Vec<usize> = (0..=8400usize).chain(16200..=16500).collect();
+    let rc: Vec<Option<(String, String, usize)>> = lens
+        .par_iter()
+        .map(|len| {
+            let mut g = |t: SystemTime| set_get_reopen_after_comment(t, *len);
+            let (_, v) = check_point(fixed, &mut g, "behind-a-long-string");
+            v.map(|(s, d)| (s, d, *len))
+        })
+        .collect();
+    for v in rc.into_iter().flatten() {
+        rep.violation(v.0, format!("{} (comments string of {} bytes before the time)", v.1, v.2), json!({"kind":"c18","ns": fixed.to_string(), "via":"comment", "len": v.2}));
+    }
+    total += lens.len() as u64;
+    rep.set("stream_offset_points", lens.len());
 
     rep.set("states", total);
     rep.set("transitions", total * 2);
@@ -378,6 +413,7 @@ pub fn replay(doc: &serde_json::Value) {
     let via = doc["via"].as_str().unwrap_or("memory").to_string();
     let mut pk = mk();
     let script = doc["script"].as_u64().unwrap_or(0) as usize;
-    let mut g = |t: SystemTime| if via == "memory" { set_get(&mut pk, t) } else if via == "busy" { set_get_reopen_busy(t, script) } else { set_get_reopen(t) };
+    let clen = doc["len"].as_u64().unwrap_or(0) as usize;
+    let mut g = |t: SystemTime| if via == "memory" { set_get(&mut pk, t) } else if via == "busy" { set_get_reopen_busy(t, script) } else if via == "comment" { set_get_reopen_after_comment(t, clen) } else { set_get_reopen(t) };
     println!("{:?}", check_point(ns, &mut g, &via).1);
 }
